@@ -1241,6 +1241,7 @@ func (s *Sim) access(fr *Frame, st *State, a Val, write bool, in ssa.Instruction
 	if !ok {
 		// a plain cell
 		if al, isAlloc := a.Root.(*ssa.Alloc); isAlloc && len(a.Segs) == 0 && s.P.ConcurrentlyCaptured(al) && !st.fresh[al] {
+			s.event(fr, st, kind+":cell("+al.Type().Underlying().(*types.Pointer).Elem().String()+")", in)
 			root := ""
 			if s.cur != nil {
 				root = s.cur.Name
